@@ -73,8 +73,9 @@ def same(a, b):
     return True
 
 
-def instrumented_fuse(pair, out, ctrl, threads, kw, mbm):
-    """one fusion under the controlled scheduler; returns (FuseResult or exception, njobs, trace)"""
+def instrumented_fuse(pair, out, ctrl, threads, kw, mbm, warmup=False):
+    """one fusion under the controlled scheduler; returns (FuseResult or exception, njobs, trace).  `warmup`: the same object first
+    runs an ordinary single-threaded process() (the locks must survive whatever an earlier call did with them)"""
     from homonim import RasterFuse
     from homonim.enums import Model
     import rasterio as rio
@@ -83,6 +84,11 @@ def instrumented_fuse(pair, out, ctrl, threads, kw, mbm):
         warnings.simplefilter('ignore')
         with RasterFuse(pair.src_path, pair.ref_path) as rf:
             njobs = None
+            if warmup:
+                rf.process(out.parent / (out.stem + '_warm.tif'), Model(kw['model']), kw['kernel_shape'],
+                           param_filename=out.parent / (out.stem + '_warm_PARAM.tif'), build_ovw=False, overwrite=True,
+                           model_config=kw.get('model_config'), out_profile=kw.get('out_profile'),
+                           block_config=dict(threads=1, max_block_mem=mbm))
             with sc.install(rf, ctrl) as outs:
                 def call():
                     rf.process(out, Model(kw['model']), kw['kernel_shape'], param_filename=out.parent / (out.stem + '_PARAM.tif'),
@@ -91,7 +97,7 @@ def instrumented_fuse(pair, out, ctrl, threads, kw, mbm):
                 fin, r = sc.run_with_watchdog(call, timeout=60)
                 box['finished'], box['exc'] = fin, (r if isinstance(r, BaseException) else None)
                 box['closed'] = [d.closed for d in outs.values() if d is not None]
-                box['locks_free'] = not any(l.locked() for l in (rf._src_lock, rf._ref_lock, rf._corr_lock, rf._param_lock))
+                box['locks_free'] = not any(l.locked() for l in (rf._src_lock, rf._ref_lock, rf._corr_lock, rf._param_lock) if hasattr(l, 'locked'))
     return box
 
 
@@ -209,7 +215,9 @@ def run(run: common.Run):
             ctrl = sc.Controller(srng, policy=pol)
             out = tmp / f'c04_{k}_s.tif'
             case = dict(i=k * 1000 + sidx, pair=k, schedule=sidx, policy=pname, T=T, model=model, njobs=njobs)
-            box = instrumented_fuse(pair, out, ctrl, T, kw, mbm)
+            # every fourth schedule runs on an object that has already done a single-threaded process() call
+            box = instrumented_fuse(pair, out, ctrl, T, kw, mbm, warmup=sidx % 4 == 3)
+            case['reused_after_single_thread_call'] = sidx % 4 == 3
             run.evaluations += 1
             run.hist[f'policy={pname}'] += 1
             run.hist[f'T={T}'] += 1
